@@ -1,6 +1,7 @@
 import Lessm.Props.Cross
 import Lessm.Props.CrossGuard
 import Lessm.Props.CrossAt
+import Lessm.Props.CrossPrint
 open Lessm.Cross
 #print axioms Lessm.Cross.vars_conservative_over_nest
 #print axioms Lessm.Cross.media_conservative_over_nest
@@ -14,3 +15,6 @@ open Lessm.Cross
 #print axioms Lessm.Cross.mixin_arith_is_expr_model
 #print axioms Lessm.Cross.mixin_arith_is_expr_model_sub
 #print axioms Lessm.Cross.atrule_agrees_with_media
+#print axioms Lessm.Cross.atrule_print_is_formatter
+#print axioms Lessm.Cross.atrule_format_is_formatter
+#print axioms Lessm.Cross.trim_agree
